@@ -55,7 +55,7 @@ def _gen_shard0(arg):
         dt = rec['dt']
         types += 1
         obj = dc.build_type(dt)
-        reb = dc.rebuild_type(obj)
+        reb = dc.try_rebuild(obj)
         for item in rec['vals']:
             av = item['v']
             conc = dc.concrete(av, dt, obj, internal=True)
@@ -99,7 +99,7 @@ def _rand_records0(arg):
     while len(recs) < 4 * n:
         dt = dc.rand_type(rnd, rnd.choice((0, 0, 1, 1, 2, 3)), open_strings=True)
         obj = dc.build_type(dt)
-        reb = dc.rebuild_type(obj)
+        reb = dc.try_rebuild(obj)
         for _ in range(4):
             conc = dc.rand_valid(rnd, dt, obj)
             av = dc.alpha_internal(conc, dt)
@@ -110,7 +110,10 @@ def _rand_records0(arg):
             adt = none if rnd.random() < 0.25 else dt
             if dc.has_limit(adt) or dc.has_limit(rdt) or (adt is dt and dt['k'] == 'string' and dt['maxc'] == dc.NOLIM and dt['minc'] > 0):
                 continue
-            node = dc.CommandNode({'k': 'command', 'arg': adt, 'res': rdt})
+            try:
+                node = dc.CommandNode({'k': 'command', 'arg': adt, 'res': rdt})
+            except Exception:   # noqa: a description the client cannot rebuild is reported by the rt.wire record of that type
+                continue
             for _ in range(3):
                 a_conc = None if node.arg is None else dc.rand_valid(rnd, adt, node.client_type.argument)
                 r_conc = None if node.res is None else dc.rand_valid(rnd, rdt, node.res)
@@ -128,7 +131,7 @@ def _kids(r):
     for sdt, sav in dc.rt_children(r['dt'], r['v']):
         obj = dc.build_type(sdt)
         conc = dc.concrete(sav, sdt, obj, internal=True)
-        res += [x for x in dc.rt_records(obj, dc.rebuild_type(obj), sdt, dc.alpha_internal(conc, sdt), conc, {'via': 'element'})
+        res += [x for x in dc.rt_records(obj, dc.try_rebuild(obj), sdt, dc.alpha_internal(conc, sdt), conc, {'via': 'element'})
                 if x['kind'] == r['kind']]
     return res
 
@@ -276,7 +279,7 @@ def replay(chk, rep):
             print(f'{name}:', repr(fn()))
         except Exception as e:   # noqa
             print(f'{name}: raises', type(e).__name__, e)
-    recs = dc.rt_records(obj, dc.rebuild_type(obj), dt, av, conc)
+    recs = dc.rt_records(obj, dc.try_rebuild(obj), dt, av, conc)
     for name, fn in (('client to_string', lambda: dc.rebuild_type(obj).to_string(conc)),
                      ('client from_string(to_string)', lambda: dc.rebuild_type(obj).from_string(dc.rebuild_type(obj).to_string(conc)))):
         try:
